@@ -2801,7 +2801,10 @@ class Env(cabc.MutableMapping):
         if key in local:
             return local[key]
         try:
-            return self[key]
+            # Not ``self[key]``: inside an alias overlay that would capture
+            # the overlay's value, and restoring it into the thread-local
+            # layer on exit makes it outlive the overlay.
+            return self._getitem_below_overlays(key)
         except KeyError:
             return NotImplemented
 
@@ -2880,6 +2883,10 @@ class Env(cabc.MutableMapping):
                         f"Environment variable ${key} is masked by DELETE_VAR"
                     )
                 return val
+        return self._getitem_below_overlays(key)
+
+    def _getitem_below_overlays(self, key):
+        """``self[key]`` as it would be without any alias overlay."""
         if key in self._d:
             val = self._d[key]
             if val is DELETE_VAR:
